@@ -33,6 +33,16 @@ Record rec := mkrec { r_time : N; r_type : rtype; r_depth : N; r_addr : N }.
    task.txt resolved by get_task_handle) and the records of <tid>.dat *)
 Record task := mktask { k_parent : option nat; k_recs : list rec }.
 
+(* Fix-up classes of fstack_entry (build_fixup_filter: symbols whose name starts with exec, or
+   contains setjmp, or contains longjmp):
+   the tie numbers the functions so that the class is visible in the id: plain functions have ids
+   below 1000000, exec symbols 1000000.., setjmp symbols 2000000.., longjmp symbols 3000000.. (fork-like
+   symbols are given as a list, see [cfg]). *)
+Definition is_exec_id (a : N) : bool := (1000000 <=? a) && (a <? 2000000).
+Definition is_setjmp_id (a : N) : bool := (2000000 <=? a) && (a <? 3000000).
+Definition is_longjmp_id (a : N) : bool := (3000000 <=? a) && (a <? 4000000).
+Definition plain_id (a : N) : bool := a <? 1000000.
+
 Definition is_exit (r : rec) : bool := match r_type r with EXIT => true | _ => false end.
 Definition is_lost (r : rec) : bool := match r_type r with LOST => true | _ => false end.
 
@@ -96,10 +106,12 @@ Record tstate := mkts {
   t_orphan : bool;         (* forked task whose parent reader is not selected (--tid): its first record
                               clears display_depth_set, the display depth then comes from the stack count *)
   t_usc : N;               (* user_stack_count: counts ENTRY/EXIT seen, NOT initialised from the first depth *)
-  t_lost : bool            (* lost_seen (display_depth_set is false exactly while it is set: both are
+  t_lost : bool;           (* lost_seen (display_depth_set is false exactly while it is set: both are
                               restored while the first record after the marker is handled) *)
+  t_ljp : bool;            (* longjmp_pending: the next EXIT not deeper than the longjmp() says which setjmp() it was *)
+  t_ljd : N                (* longjmp_depth: depth field of the last longjmp() ENTRY *)
 }.
-Definition tstate0 := mkts false 0 0 0 [] 0 0 false 0 false.
+Definition tstate0 := mkts false 0 0 0 [] 0 0 false 0 false false 0.
 
 Definition fget (st : list frame) (i : N) : frame := nth (N.to_nat i) st frame0.
 Fixpoint upd (st : list frame) (n : nat) (x : frame) : list frame :=
@@ -128,7 +140,7 @@ Definition first_setup (inh : N) (ts : tstate) (r : rec) : tstate :=
   else
     let sc := match r_type r with EXIT => r_depth r + 1 | _ => r_depth r end in
     mkts true sc (if inh =? 0 then (if t_orphan ts then sc else t_dd ts) else inh) (t_fork_dd ts)
-         (init_frames (t_stack ts) (N.to_nat sc) (r_time r)) (t_ts ts) (t_ts_last ts) (t_orphan ts) (t_usc ts) (t_lost ts).
+         (init_frames (t_stack ts) (N.to_nat sc) (r_time r)) (t_ts ts) (t_ts_last ts) (t_orphan ts) (t_usc ts) (t_lost ts) (t_ljp ts) (t_ljd ts).
 
 (* fstack_account_time, `if (task->lost_seen)`: the first record after a LOST marker
    re-synchronises stack_count from its depth field and restarts the clocks of the slots
@@ -145,7 +157,7 @@ Definition resync (ts : tstate) (r : rec) : tstate :=
   if t_lost ts
   then mkts (t_set ts) (match r_type r with EXIT => r_depth r + 1 | _ => r_depth r end) (t_dd ts) (t_fork_dd ts)
             (reset_times (t_stack ts) (t_usc ts) (S (N.to_nat (r_depth r))) (sub64 (r_time r) 1))
-            (t_ts ts) (t_ts_last ts) (t_orphan ts) (t_usc ts) false
+            (t_ts ts) (t_ts_last ts) (t_orphan ts) (t_usc ts) false (t_ljp ts) (t_ljd ts)
   else ts.
 
 (* fstack_account_time, UFTRACE_LOST: the frames stack_count-1 .. user_stack_count are closed;
@@ -167,10 +179,10 @@ Definition account (ts : tstate) (r : rec) : tstate :=
   | LOST =>
       mkts (t_set ts) (t_sc ts) (t_dd ts) (t_fork_dd ts)
            (lost_close (t_stack ts) (t_usc ts) (N.to_nat (t_sc ts)) 0)
-           (t_ts ts) (t_ts_last ts) (t_orphan ts) (t_usc ts) true
+           (t_ts ts) (t_ts_last ts) (t_orphan ts) (t_usc ts) true (t_ljp ts) (t_ljd ts)
   | ENTRY =>
       mkts (t_set ts) (t_sc ts) (t_dd ts) (t_fork_dd ts)
-           (fset (t_stack ts) (t_sc ts) (mkframe (r_addr r) (r_time r) true)) (t_ts ts) (t_ts_last ts) (t_orphan ts) (t_usc ts) (t_lost ts)
+           (fset (t_stack ts) (t_sc ts) (mkframe (r_addr r) (r_time r) true)) (t_ts ts) (t_ts_last ts) (t_orphan ts) (t_usc ts) (t_lost ts) (t_ljp ts) (t_ljd ts)
   | EXIT =>
       if t_sc ts =? 0 then ts          (* idx = -1: fstack_get returns NULL *)
       else
@@ -178,15 +190,26 @@ Definition account (ts : tstate) (r : rec) : tstate :=
         let f := fget (t_stack ts) idx in
         let delta := if f_valid f then sub64 (r_time r) (f_time f) else 0 in
         mkts (t_set ts) (t_sc ts) (t_dd ts) (t_fork_dd ts)
-             (fset (t_stack ts) idx (mkframe (f_addr f) delta false)) (t_ts ts) (t_ts_last ts) (t_orphan ts) (t_usc ts) (t_lost ts)
+             (fset (t_stack ts) idx (mkframe (f_addr f) delta false)) (t_ts ts) (t_ts_last ts) (t_orphan ts) (t_usc ts) (t_lost ts) (t_ljp ts) (t_ljd ts)
   end.
 
-(* fstack_update_stack_count *)
+(* fstack_update_stack_count.  An EXIT that follows a longjmp() and is not deeper than it belongs to
+   the setjmp() the program went back to: stack_count, user_stack_count and display_depth are moved
+   by diff = stack_count - 1 - depth (clipped at 0), i.e. stack_count becomes depth + 1 *)
 Definition count (ts : tstate) (r : rec) : tstate :=
-  mkts (t_set ts)
-       (match r_type r with ENTRY => t_sc ts + 1 | EXIT => N.pred (t_sc ts) | LOST => t_sc ts end)
-       (t_dd ts) (t_fork_dd ts) (t_stack ts) (t_ts ts) (t_ts_last ts) (t_orphan ts)
-       (match r_type r with ENTRY => t_usc ts + 1 | EXIT => N.pred (t_usc ts) | LOST => t_usc ts end) (t_lost ts).
+  match r_type r with
+  | ENTRY =>
+      mkts (t_set ts) (t_sc ts + 1) (t_dd ts) (t_fork_dd ts) (t_stack ts) (t_ts ts) (t_ts_last ts) (t_orphan ts)
+           (t_usc ts + 1) (t_lost ts) (t_ljp ts) (t_ljd ts)
+  | EXIT =>
+      if t_ljp ts && (r_depth r <=? t_ljd ts)
+      then mkts (t_set ts) (r_depth r) ((t_dd ts + r_depth r + 1) - t_sc ts) (t_fork_dd ts) (t_stack ts)
+                (t_ts ts) (t_ts_last ts) (t_orphan ts) (N.pred ((t_usc ts + r_depth r + 1) - t_sc ts)) (t_lost ts)
+                false (t_ljd ts)
+      else mkts (t_set ts) (N.pred (t_sc ts)) (t_dd ts) (t_fork_dd ts) (t_stack ts) (t_ts ts) (t_ts_last ts) (t_orphan ts)
+                (N.pred (t_usc ts)) (t_lost ts) (t_ljp ts) (t_ljd ts)
+  | LOST => ts
+  end.
 
 (* the whole of fstack_account_time + fstack_update_stack_count for one record; a LOST marker
    that follows a LOST marker returns before anything is done *)
@@ -199,7 +222,9 @@ Definition consume_task (inh : N) (ts : tstate) (r : rec) : tstate :=
 Record gstate := mkg {
   g_tasks : list tstate;
   g_first : N;             (* handle->time_range.first *)
-  g_prev : N               (* prev_time of command_replay *)
+  g_prev : N;              (* prev_time of command_replay *)
+  g_sjd : N;               (* setjmp_depth  (static in fstack.c: shared by all tasks) *)
+  g_sjc : N                (* setjmp_count *)
 }.
 
 Definition tget (g : gstate) (i : nat) : tstate := nth i (g_tasks g) tstate0.
@@ -209,7 +234,8 @@ Fixpoint tupd (l : list tstate) (i : nat) (x : tstate) : list tstate :=
   | _ :: t, O => x :: t
   | h :: t, S i' => h :: tupd t i' x
   end.
-Definition tset (g : gstate) (i : nat) (x : tstate) : gstate := mkg (tupd (g_tasks g) i x) (g_first g) (g_prev g).
+Definition tset (g : gstate) (i : nat) (x : tstate) : gstate :=
+  mkg (tupd (g_tasks g) i x) (g_first g) (g_prev g) (g_sjd g) (g_sjc g).
 
 (* update_first_timestamp *)
 Definition upd_first (first t : N) : N := if (first =? 0) || (t <? first) then t else first.
@@ -223,7 +249,7 @@ Definition inherit (tasks : list task) (g : gstate) (i : nat) : N :=
 (* __fstack_consume: update_first_timestamp; fstack_account_time; fstack_update_stack_count *)
 Definition consume (tasks : list task) (g : gstate) (i : nat) (r : rec) : gstate :=
   let ts := consume_task (inherit tasks g i) (tget g i) r in
-  mkg (tupd (g_tasks g) i ts) (upd_first (g_first g) (r_time r)) (g_prev g).
+  mkg (tupd (g_tasks g) i ts) (upd_first (g_first g) (r_time r)) (g_prev g) (g_sjd g) (g_sjc g).
 
 (* ------------------------------------------------------------------ output lines *)
 Inductive kind := KOpen | KLeaf | KClose | KWarn | KBlank | KLost.     (* KLost: l_name = number of lost records *)
@@ -246,11 +272,36 @@ Record cfg := mkcfg {
 Definition is_fork (c : cfg) (a : N) : bool := existsb (N.eqb a) (c_forks c).
 
 Definition stamp (ts : tstate) (t : N) : tstate :=
-  mkts (t_set ts) (t_sc ts) (t_dd ts) (t_fork_dd ts) (t_stack ts) t (t_ts ts) (t_orphan ts) (t_usc ts) (t_lost ts).
+  mkts (t_set ts) (t_sc ts) (t_dd ts) (t_fork_dd ts) (t_stack ts) t (t_ts ts) (t_orphan ts) (t_usc ts) (t_lost ts) (t_ljp ts) (t_ljd ts).
 Definition set_dd (ts : tstate) (dd : N) : tstate :=
-  mkts (t_set ts) (t_sc ts) dd (t_fork_dd ts) (t_stack ts) (t_ts ts) (t_ts_last ts) (t_orphan ts) (t_usc ts) (t_lost ts).
+  mkts (t_set ts) (t_sc ts) dd (t_fork_dd ts) (t_stack ts) (t_ts ts) (t_ts_last ts) (t_orphan ts) (t_usc ts) (t_lost ts) (t_ljp ts) (t_ljd ts).
 Definition set_fork (ts : tstate) (fd : N) : tstate :=
-  mkts (t_set ts) (t_sc ts) (t_dd ts) fd (t_stack ts) (t_ts ts) (t_ts_last ts) (t_orphan ts) (t_usc ts) (t_lost ts).
+  mkts (t_set ts) (t_sc ts) (t_dd ts) fd (t_stack ts) (t_ts ts) (t_ts_last ts) (t_orphan ts) (t_usc ts) (t_lost ts) (t_ljp ts) (t_ljd ts).
+
+(* the fix-ups of fstack_entry for the matched symbol class, on the task and on the static pair
+   (setjmp_depth, setjmp_count); [depth] = display depth of this call *)
+Definition fixup_entry (c : cfg) (r : rec) (depth : N) (ts : tstate) (sj : N * N) : tstate * (N * N) :=
+  let a := r_addr r in
+  if is_exec_id a then (ts, sj)                                     (* FSTACK_FL_EXEC, used by fstack_update below *)
+  else if is_setjmp_id a then (ts, (t_dd ts + 1, t_sc ts))          (* setjmp_depth = display_depth + 1; setjmp_count *)
+  else if is_longjmp_id a
+  then (mkts (t_set ts) (t_sc ts) (t_dd ts) (t_fork_dd ts) (t_stack ts) (t_ts ts) (t_ts_last ts) (t_orphan ts)
+             (t_usc ts) (t_lost ts) (t_ljp ts) (r_depth r), sj)     (* FSTACK_FL_LONGJMP; longjmp_depth *)
+  else if is_fork c a then (set_fork ts (depth + 1), sj)
+  else (ts, sj).
+
+(* fstack_update(UFTRACE_ENTRY): exec* starts the process anew, longjmp() goes back to the latest
+   setjmp() (a guess that the next EXIT corrects), every other call is one level deeper *)
+Definition update_entry (r : rec) (depth : N) (ts : tstate) (sj : N * N) : tstate :=
+  let a := r_addr r in
+  if is_exec_id a
+  then mkts (t_set ts) 0 0 (t_fork_dd ts) (t_stack ts) (t_ts ts) (t_ts_last ts) (t_orphan ts) 0 (t_lost ts) (t_ljp ts) (t_ljd ts)
+  else if is_longjmp_id a
+  then mkts (t_set ts) (snd sj) (fst sj) (t_fork_dd ts) (t_stack ts) (t_ts ts) (t_ts_last ts) (t_orphan ts) (snd sj)
+            (t_lost ts) true (t_ljd ts)
+  else set_dd ts (depth + 1).
+Definition no_fold_id (a : N) : bool := is_exec_id a || is_longjmp_id a.     (* fstack_skip returns NULL *)
+Definition set_sj (g : gstate) (sj : N * N) : gstate := mkg (g_tasks g) (g_first g) (g_prev g) (fst sj) (snd sj).
 
 Definition delta_of (ts : tstate) : N := if t_ts_last ts =? 0 then 0 else sub64 (t_ts ts) (t_ts_last ts).
 
@@ -269,7 +320,7 @@ Fixpoint run (c : cfg) (tasks : list task) (l : list (nat * rec)) (g : gstate) :
       let ts0 := tget g1 i in
       let warn := if negb (r_time r =? 0) && (r_time r <? g_prev g1)
                   then [mkline KWarn 0 (t_dd ts0 + 1) 0 0 0 0 0 0] else [] in
-      let g2 := mkg (g_tasks g1) (g_first g1) (if r_time r =? 0 then g_prev g1 else r_time r) in
+      let g2 := mkg (g_tasks g1) (g_first g1) (if r_time r =? 0 then g_prev g1 else r_time r) (g_sjd g1) (g_sjc g1) in
       let ts1 := stamp ts0 (r_time r) in
       match r_type r with
       | LOST =>
@@ -282,19 +333,20 @@ Fixpoint run (c : cfg) (tasks : list task) (l : list (nat * rec)) (g : gstate) :
           (* fstack_entry: the display depth of this line is the current one, or stack_count - 1 when it
              has to be derived again (after LOST); the fork fix-up records depth + 1 for the children *)
           let depth := if pend then t_sc ts1 - 1 else t_dd ts1 in
-          let ts2 := if is_fork c (r_addr r) then set_fork ts1 (depth + 1) else ts1 in
+          let '(ts2, sj) := fixup_entry c r depth ts1 (g_sjd g2, g_sjc g2) in
+          let g2s := set_sj g2 sj in
           let idx := t_sc ts2 - 1 in
           let open_ (_ : unit) :=
             let ln := mk KOpen i ts2 (g_first g2) depth (r_addr r) 0 (f_addr (fget (t_stack ts2) idx)) in
-            let '(out, g') := run c tasks tl (tset g2 i (set_dd ts2 (depth + 1))) in
+            let '(out, g') := run c tasks tl (tset g2s i (update_entry r depth ts2 sj)) in
             (warn ++ ln :: out, g') in
           match tl with
           | (j, r') :: tl' =>
-              if c_fold c && Nat.eqb j i && (r_depth r' =? r_depth r) && is_exit r'
+              if c_fold c && Nat.eqb j i && (r_depth r' =? r_depth r) && is_exit r' && negb (no_fold_id (r_addr r))
               then
                 (* leaf: fstack_consume(next); duration from the same func_stack slot *)
                 (* fstack_entry has set display_depth (it may have been derived just now) *)
-                let g3 := consume tasks (tset g2 i (set_dd ts2 depth)) i r' in
+                let g3 := consume tasks (tset g2s i (set_dd ts2 depth)) i r' in
                 let ts3 := tget g3 i in
                 let f := fget (t_stack ts3) idx in
                 let ln := mk KLeaf i ts3 (g_first g3) depth (r_addr r) (f_time f) (f_addr f) in
@@ -376,10 +428,10 @@ Definition orphan_of (sel : option (list nat)) (tasks : list task) (t : task) : 
   | Some p => Nat.ltb p (length tasks) && negb (selected sel p)
   | None => false
   end.
-Definition tstate_init (orphan : bool) : tstate := mkts false 0 0 0 [] 0 0 orphan 0 false.
+Definition tstate_init (orphan : bool) : tstate := mkts false 0 0 0 [] 0 0 orphan 0 false false 0.
 
 Definition init_g (sel : option (list nat)) (tasks : list task) : gstate :=
-  mkg (map (fun t => tstate_init (orphan_of sel tasks t)) tasks) (first_unselected sel tasks 0 0) 0.
+  mkg (map (fun t => tstate_init (orphan_of sel tasks t)) tasks) (first_unselected sel tasks 0 0) 0 0 0.
 
 Definition replay_raw (c : cfg) (sel : option (list nat)) (tasks : list task) : list line * gstate :=
   run c tasks (merge (mask_queues sel tasks 0)) (init_g sel tasks).
@@ -610,7 +662,7 @@ Fixpoint wf_stream (d : N) (last : N) (rs : list rec) : bool :=
   match rs with
   | [] => true
   | r :: rest =>
-      (last <=? r_time r) && (r_time r <? 9223372036854775808) &&
+      (last <=? r_time r) && (r_time r <? 9223372036854775808) && plain_id (r_addr r) &&
       match r_type r with
       | ENTRY => (r_depth r =? d) && wf_stream (d + 1) (r_time r) rest
       | EXIT => (0 <? d) && (r_depth r =? d - 1) && wf_stream (d - 1) (r_time r) rest
@@ -661,10 +713,10 @@ Fixpoint wf_lost (d : option N) (last : N) (rs : list rec) : bool :=
       | LOST => ((r_time r =? 0) || (last <=? r_time r)) && (r_time r <? 9223372036854775808) &&
                 wf_lost None (if r_time r =? 0 then last else r_time r) rest
       | ENTRY =>
-          (last <=? r_time r) && (r_time r <? 9223372036854775808) &&
+          (last <=? r_time r) && (r_time r <? 9223372036854775808) && plain_id (r_addr r) &&
           (match d with Some d0 => r_depth r =? d0 | None => true end) && wf_lost (Some (r_depth r + 1)) (r_time r) rest
       | EXIT =>
-          (last <=? r_time r) && (r_time r <? 9223372036854775808) &&
+          (last <=? r_time r) && (r_time r <? 9223372036854775808) && plain_id (r_addr r) &&
           (match d with Some d0 => (0 <? d0) && (r_depth r =? d0 - 1) | None => true end) &&
           wf_lost (Some (r_depth r)) (r_time r) rest
       end
@@ -683,6 +735,8 @@ Definition track_step (t : track) (r : rec) : track * bool :=
   match r_type r with
   | LOST => (TPending, false)
   | ENTRY =>
+      if no_fold_id (r_addr r) then (TNone, false)          (* exec / longjmp move the depth elsewhere *)
+      else
       match t with
       | TPending => (TSynced (r_depth r + 1), true)
       | TSynced d => if r_depth r =? d then (TSynced (d + 1), true) else (TNone, false)
